@@ -42,11 +42,11 @@ def s1(ck, an):
     ck.check(uncond and len(st) == 1, "RESET", "S1.queue-rebuilt-at-reset", fr.f.short, fr.loc(st[0]), "every reset rebuilds the action queue (no action of an earlier episode survives)",
              "the queue is rebuilt only on some paths of reset: delayed actions of the previous episode would be executed", construct=stmt_text(st[0]))
     s = st[0]
-    v = s.value
+    v = deref(fr, s.value)[0]              # through temporaries
     ok_ctor = isinstance(v, ast.Call) and fr.sym.canon(v.func) in ("deque", "collections.deque")
     ck.check(ok_ctor, "IDIOM", "S1.queue-is-deque", fr.f.short, fr.loc(s), "the queue is a collections.deque", f"the queue is {ast.unparse(v)[:60]}", construct=stmt_text(s))
     if ok_ctor:
-        init = v.args[0] if v.args else None
+        init = deref(fr, v.args[0])[0] if v.args else None
         maxlen = next((k.value for k in v.keywords if k.arg == "maxlen"), v.args[1] if len(v.args) > 1 else None)
         n_prefill = None
         elt = None
